@@ -1,4 +1,5 @@
 CONSTANT Want = {"c04"}
+CONSTANT Conform = FALSE
 INIT TraceInit
 NEXT TraceNext
 INVARIANTS C04_Evolution
